@@ -19,7 +19,7 @@ def cfg(n, sym, nxt, edge=True):
     return '\n'.join([
         'CONSTANTS N = %d' % n, 'Sym = %s' % ('TRUE' if sym else 'FALSE'), 'Vals <- MC_Vals',
         'INIT MCInit', 'NEXT %s' % nxt, 'VIEW View',
-        'INVARIANTS TypeOK AliasCoherent RefinesMap Symmetric Isolation',
+        'INVARIANTS TypeOK AliasCoherent RefinesMap Symmetric Isolation ExportSymmetric',
         'PROPERTIES SetUnsetOnlyFillsUnset ApplyOutLeavesOriginal',
         'ACTION_CONSTRAINT %s' % ('Edge' if edge else 'NoEdge'), ''])
 
@@ -90,6 +90,23 @@ class TablesAdapter(Adapter):
                             if v is not None and v is pt[c, d]:
                                 shares = True
             return {'newvals': newvals, 'shares': shares, 'is_new_object': new is not pt}
+        if act == 'PTExport':
+            import numpy as np
+            from pyPRISM.core.Space import Space
+            space = self.rng.choice([None, Space.Real, Space.Fourier, Space.NonSpatial])
+            try:
+                ma = pt.exportToMatrixArray() if space is None else pt.exportToMatrixArray(space=space)
+            except ValueError:
+                return {'raises': True}
+            data = [[float(x) for x in ma[a, b]] for a in T for b in T]
+            obs = {'raises': False, 'data': data, 'types_ok': list(ma.types) == list(T),
+                   'space_ok': ma.space == (Space.Real if space is None else space),
+                   'shape_ok': ma.data.shape == (2, len(T), len(T)) and ma.length == 2 and ma.rank == len(T)}
+            # the export is independent of the table: writing into it changes no stored value
+            before = [None if pt[a, b] is None else list(pt[a, b]) for a in T for b in T]
+            ma.data[...] = -7.0
+            obs['shares'] = before != [None if pt[a, b] is None else list(pt[a, b]) for a in T for b in T]
+            return obs
         if act == 'MutateStored':
             pt[T[l['i'] - 1], T[l['j'] - 1]][1] = 1
             return {}
@@ -177,6 +194,12 @@ class TablesAdapter(Adapter):
 
     def diff_obs(self, label, obs):
         out = []
+        if label['act'] == 'PTExport' and not label['raises'] and obs.get('raises') is False:
+            if [list(map(float, v)) for v in label['data']] != obs['data']:
+                out.append(('Export.data', {'expected': label['data'], 'observed': obs['data']}))
+            for k in ('types_ok', 'space_ok', 'shape_ok'):
+                if not obs[k]:
+                    out.append(('Export.' + k[:-3], {}))
         for k in ('raises', 'out', 'newvals', 'shares'):
             if k in label and obs.get(k) != label[k]:
                 out.append(('Obs.' + k, {'expected': label[k], 'observed': obs.get(k)}))
